@@ -586,9 +586,14 @@ func checkC05(c *Ctx, n int) {
 		for j := 0; j < k; j++ {
 			code := []string{"str", "int", "Lstr", "Lint"}[r.Intn(4)]
 			po := &precOpt{name: fmt.Sprintf("o%d", j), field: fmt.Sprintf("P%d", j), code: code}
+			envEquals := r.Intn(3) == 0
 			val := func(src string, idx int) string {
 				if strings.HasSuffix(code, "int") {
 					return strconv.Itoa(1000*(j+1) + 100*map[string]int{"init": 1, "def": 2, "env": 3, "ini": 4, "cli": 5, "opt": 6}[src] + idx)
+				}
+				// (a value from the environment may itself contain `=`: a URL with a query, base64 padding)
+				if src == "env" && envEquals {
+					return fmt.Sprintf("%s%d_%d=q=", src, j, idx)
 				}
 				return fmt.Sprintf("%s%d_%d", src, j, idx)
 			}
